@@ -32,6 +32,9 @@ Err(c)    == [t |-> "err", cls |-> c]                \* evaluation failed with c
 \* model (DESIGN.md section 10): floats (incl. nan / inf) and integers beyond 32 bits
 Flt(txt)  == [t |-> "float", f |-> txt]
 BigInt(d) == [t |-> "big", d |-> d]
+\* a plain Python instance: it has a string form and nothing else - no items, no length,
+\* no iteration; what it holds in Python attributes does not exist for a template (C05)
+Opaque(s) == [t |-> "opaque", s |-> s]
 
 IsErr(v)  == v.t = "err"
 IsUndef(v) == v.t = "undef"
@@ -94,6 +97,9 @@ DownCase(s) == MapCh(DownCh, s)
 EscCh(c) == CASE c = "&" -> "&amp;" [] c = "<" -> "&lt;" [] c = ">" -> "&gt;"
               [] c = "'" -> "&#39;" [] c = "\"" -> "&#34;" [] OTHER -> c
 Escape(s) == MapCh(EscCh, s)
+\* html.escape (what `escape` / `escape_once` use without auto-escape) spells the quotes differently
+EscHtmlCh(c) == CASE c = "'" -> "&#x27;" [] c = "\"" -> "&quot;" [] OTHER -> EscCh(c)
+EscapeHtml(s) == MapCh(EscHtmlCh, s)
 HtmlSig == {"&", "<", ">", "'", "\""}
 
 \* decimal digits of a string -> Nat ; "" if not all digits
@@ -176,7 +182,7 @@ Unprintable(v) == \/ v.t \in {"hash", "forloop", "trloop", "blockdrop"}
                   \/ (v.t = "arr" /\ \E i \in DOMAIN v.v : Unprintable(v.v[i]))
 
 RECURSIVE Exotic(_)
-Exotic(v) == \/ v.t \in {"float", "big", "odrop"}
+Exotic(v) == \/ v.t \in {"float", "big", "odrop", "opaque"}
              \/ (v.t = "arr" /\ \E i \in DOMAIN v.v : Exotic(v.v[i]))
              \/ (v.t = "hash" /\ \E i \in DOMAIN v.h : Exotic(v.h[i][2]))
 
